@@ -9,6 +9,9 @@ use gmsol_treasury::states::config::verif_hooks_g1 as ch;
 use gmsol_treasury::states::gt_bank::verif_hooks_g1 as bh;
 use gmsol_treasury::states::{Config, GtBank};
 use gmsol_verif_harness::*;
+use gmsol_verif_harness::g9rt::Arena;
+use anchor_lang::{Discriminator, InstructionData};
+use anchor_lang::solana_program::{account_info::AccountInfo, instruction::Instruction, program_error::ProgramError};
 
 const UNIT: u128 = 100_000_000_000_000_000_000;
 
@@ -191,11 +194,261 @@ fn bank_history(rng: &mut Rng) {
     emit(tag, &format!("CBank [{}]", steps.join("; ")));
 }
 
+
+// ================================================================= instruction level
+// The REAL `complete_gt_exchange` instruction of the treasury program, run in-process through
+// `gmsol_treasury::entry`: Anchor account validation, the CPI into the store program's
+// `close_gt_exchange` (dispatched to `gmsol_store::entry`, PDA signer checked), and the SPL-token
+// `transfer_checked` CPIs (emulated on the token-account bytes, PDA signer checked).
+
+fn token_account_data(mint: Pubkey, owner: Pubkey, amount: u64) -> Vec<u8> {
+    let mut d = vec![0u8; 165];
+    d[0..32].copy_from_slice(mint.as_ref());
+    d[32..64].copy_from_slice(owner.as_ref());
+    d[64..72].copy_from_slice(&amount.to_le_bytes());
+    d[108] = 1; // AccountState::Initialized
+    d
+}
+fn mint_data(decimals: u8) -> Vec<u8> {
+    let mut d = vec![0u8; 82];
+    d[36..44].copy_from_slice(&u64::MAX.to_le_bytes());
+    d[44] = decimals;
+    d[45] = 1;
+    d
+}
+fn token_amount(data: &[u8]) -> u64 { u64::from_le_bytes(data[64..72].try_into().unwrap()) }
+fn zc(disc: &[u8], bytes: &[u8]) -> Vec<u8> { let mut d = disc.to_vec(); d.extend_from_slice(bytes); d }
+fn core_code(e: gmsol_store::CoreError) -> u32 {
+    match anchor_lang::error::Error::from(e) { anchor_lang::error::Error::AnchorError(a) => a.error_code_number, _ => 0 }
+}
+
+fn pda_signed(key: &Pubkey, seeds: &[&[&[u8]]], caller: &Pubkey) -> bool {
+    seeds.iter().any(|s| Pubkey::create_program_address(s, caller).map(|k| k == *key).unwrap_or(false))
+}
+
+fn ix_dispatcher() -> g9rt::Dispatcher {
+    Box::new(|ix: &Instruction, infos: &[AccountInfo], seeds: &[&[&[u8]]]| {
+        let caller = gmsol_treasury::ID;
+        let find = |k: &Pubkey| infos.iter().find(|a| a.key == k).ok_or(ProgramError::NotEnoughAccountKeys);
+        let signed = |k: &Pubkey| -> bool { find(k).map(|a| a.is_signer).unwrap_or(false) || pda_signed(k, seeds, &caller) };
+        if ix.program_id == gmsol_store::ID {
+            // CPI into the real store program
+            let mut accounts: Vec<AccountInfo> = vec![];
+            for m in &ix.accounts {
+                let mut a = find(&m.pubkey)?.clone();
+                if m.is_signer && !signed(&m.pubkey) { return Err(ProgramError::MissingRequiredSignature); }
+                a.is_signer = m.is_signer;
+                a.is_writable = m.is_writable;
+                accounts.push(a);
+            }
+            // lifetimes: the infos point into the 'static arena
+            let accounts: &'static [AccountInfo<'static>] = unsafe { std::mem::transmute::<&[AccountInfo], &'static [AccountInfo<'static>]>(Box::leak(accounts.into_boxed_slice())) };
+            return gmsol_store::entry(&gmsol_store::ID, accounts, &ix.data);
+        }
+        if ix.program_id != anchor_spl::token::ID || ix.data.first() != Some(&12) {
+            return Err(ProgramError::InvalidInstructionData);
+        }
+        let amount = u64::from_le_bytes(ix.data[1..9].try_into().unwrap());
+        let from = find(&ix.accounts[0].pubkey)?;
+        let mint = find(&ix.accounts[1].pubkey)?;
+        let to = find(&ix.accounts[2].pubkey)?;
+        let auth = &ix.accounts[3];
+        if !auth.is_signer || !signed(&auth.pubkey) { return Err(ProgramError::MissingRequiredSignature); }
+        if mint.try_borrow_data()?[44] != ix.data[9] { return Err(ProgramError::Custom(18)); }
+        {
+            let f = from.try_borrow_data()?;
+            let t = to.try_borrow_data()?;
+            if f[0..32] != t[0..32] || f[0..32] != *mint.key.as_ref() { return Err(ProgramError::Custom(3)); }
+            if f[32..64] != *auth.pubkey.as_ref() { return Err(ProgramError::Custom(4)); }
+        }
+        let fa = token_amount(&from.try_borrow_data()?);
+        let ta = token_amount(&to.try_borrow_data()?);
+        let nf = fa.checked_sub(amount).ok_or(ProgramError::Custom(1))?;
+        let nt = ta.checked_add(amount).ok_or(ProgramError::Custom(14))?;
+        from.try_borrow_mut_data()?[64..72].copy_from_slice(&nf.to_le_bytes());
+        to.try_borrow_mut_data()?[64..72].copy_from_slice(&nt.to_le_bytes());
+        Ok(())
+    })
+}
+
+struct IxWorld {
+    arena: Arena,
+    store: usize, config: usize, tvc: usize, vault: usize, bank: usize,
+    store_prog: usize, token_prog: usize, token22_prog: usize,
+    store_key: Pubkey, vault_key: Pubkey, bank_key: Pubkey,
+}
+
+impl IxWorld {
+    fn bank(&self) -> &GtBank { bytemuck::from_bytes::<GtBank>(&self.arena.mems[self.bank].data()[8..]) }
+    fn bank_mut(&mut self) -> &mut GtBank { let i = self.bank; bytemuck::from_bytes_mut::<GtBank>(&mut self.arena.mems[i].data_mut()[8..]) }
+    fn bank_vault_key(&self, t: u64) -> Pubkey { anchor_spl::associated_token::get_associated_token_address(&self.bank_key, &tok(t)) }
+
+    fn new() -> Self {
+        use gmsol_store::ops::order::verif_hooks_g1 as sh;
+        let tid = gmsol_treasury::ID;
+        let sid = gmsol_store::ID;
+        let mut arena = Arena::new();
+        let store_key = g9rt::key(1);
+        let (config_key, config_bump) = Pubkey::find_program_address(&[b"config", store_key.as_ref()], &tid);
+        let tvc_key = g9rt::key(3);
+        let vault_key = g9rt::key(4);
+        let (bank_key, bank_bump) = Pubkey::find_program_address(&[b"gt_bank", tvc_key.as_ref(), vault_key.as_ref()], &tid);
+
+        let mut st: gmsol_store::states::Store = bytemuck::Zeroable::zeroed();
+        st.init(g9rt::key(90), "", 255, g9rt::key(91), g9rt::key(92)).unwrap();
+        st.enable_role("GT_CONTROLLER").unwrap();
+        st.grant(&config_key, "GT_CONTROLLER").unwrap();
+        sh::gt_init(&mut st, 7, 100_000_000_000_000_000_000, 101_000_000_000_000_000_000, 1_000_000, &[10, 20]).unwrap();
+        let store = arena.add(store_key, sid, 1, &g9rt::zero_copy_data(&st), false, false, false);
+
+        let mut cfg = vec![0u8; std::mem::size_of::<Config>()];
+        cfg[1] = config_bump;
+        cfg[16..48].copy_from_slice(store_key.as_ref());
+        cfg[48..80].copy_from_slice(tvc_key.as_ref());
+        let config = arena.add(config_key, tid, 1, &zc(Config::DISCRIMINATOR, &cfg), false, false, false);
+
+        let mut tv = vec![0u8; std::mem::size_of::<gmsol_treasury::states::TreasuryVaultConfig>()];
+        tv[16..48].copy_from_slice(config_key.as_ref());
+        let tvc = arena.add(tvc_key, tid, 1, &zc(gmsol_treasury::states::TreasuryVaultConfig::DISCRIMINATOR, &tv), false, false, false);
+
+        let mut gv: gmsol_programs::gmsol_store::accounts::GtExchangeVault = bytemuck::Zeroable::zeroed();
+        gv.bump = 250; gv.flags.value = 0b11; gv.ts = 1_700_000_000; gv.time_window = 3600; gv.store = store_key;
+        let vault = arena.add(vault_key, sid, 1, &zc(gmsol_store::states::gt::GtExchangeVault::DISCRIMINATOR, bytemuck::bytes_of(&gv)), false, true, false);
+
+        let mut bank: GtBank = GtBank::zeroed();
+        bh::try_init(&mut bank, bank_bump, tvc_key, vault_key).unwrap();
+        let bank_i = arena.add(bank_key, tid, 1, &g9rt::zero_copy_data(&bank), false, true, false);
+
+        let store_prog = arena.add(sid, Pubkey::default(), 1, &[], false, false, true);
+        let token_prog = arena.add(anchor_spl::token::ID, Pubkey::default(), 1, &[], false, false, true);
+        let token22_prog = arena.add(anchor_spl::token_2022::ID, Pubkey::default(), 1, &[], false, false, true);
+        IxWorld { arena, store, config, tvc, vault, bank: bank_i, store_prog, token_prog, token22_prog, store_key, vault_key, bank_key }
+    }
+
+    /// Adds (or finds) an account.
+    fn ensure(&mut self, key: Pubkey, owner: Pubkey, data: &[u8], writable: bool) -> usize {
+        match self.arena.find(&key) { Some(i) => i, None => self.arena.add(key, owner, 1, data, false, writable, false) }
+    }
+
+    /// One exchange claim of `g` GT by claimant number `who` through the real instruction.
+    /// Returns the rows (token, balance before, paid) or the custom error number.
+    fn claim(&mut self, who: u64, g: u64) -> std::result::Result<Vec<(u64, u64, u64)>, u32> {
+        let owner_key = g9rt::key(100 + who);
+        let owner = match self.arena.find(&owner_key) { Some(i) => i, None => self.arena.add(owner_key, Pubkey::default(), 1_000_000, &[], true, true, false) };
+        let (ex_key, ex_bump) = Pubkey::find_program_address(&[b"gt_exchange", self.vault_key.as_ref(), owner_key.as_ref()], &gmsol_store::ID);
+        let mut ex: gmsol_programs::gmsol_store::accounts::GtExchange = bytemuck::Zeroable::zeroed();
+        ex.bump = ex_bump; ex.flags.value = 1; ex.amount = g; ex.owner = owner_key; ex.store = self.store_key; ex.vault = self.vault_key;
+        let exchange = self.arena.add(ex_key, gmsol_store::ID, 2_000_000, &zc(gmsol_store::states::gt::GtExchange::DISCRIMINATOR, bytemuck::bytes_of(&ex)), false, true, false);
+
+        let tokens: Vec<u64> = self.bank().tokens().map(|t| tok_id(&t)).collect();
+        let before: Vec<u64> = tokens.iter().map(|t| self.bank().get_balance(&tok(*t)).unwrap()).collect();
+        let mut mints = vec![]; let mut vaults = vec![]; let mut targets = vec![];
+        for t in &tokens {
+            let bal = self.bank().get_balance(&tok(*t)).unwrap();
+            let m = self.ensure(tok(*t), anchor_spl::token::ID, &mint_data((t % 10) as u8), false);
+            let vk = self.bank_vault_key(*t);
+            let bank_key = self.bank_key;
+            let v = self.ensure(vk, anchor_spl::token::ID, &token_account_data(tok(*t), bank_key, 0), true);
+            // the vault holds at least the recorded balance (anything above it belongs to the treasury)
+            self.arena.mems[v].data_mut()[64..72].copy_from_slice(&bal.to_le_bytes());
+            let tk = g9rt::key(10_000 + who * 100 + t);
+            let tg = self.ensure(tk, anchor_spl::token::ID, &token_account_data(tok(*t), owner_key, 0), true);
+            self.arena.mems[tg].data_mut()[64..72].copy_from_slice(&0u64.to_le_bytes());
+            mints.push(m); vaults.push(v); targets.push(tg);
+        }
+        let a = &self.arena;
+        let mut accounts = vec![
+            a.info_with(owner, true, true), a.info(self.store), a.info(self.config), a.info(self.tvc),
+            a.info(self.vault), a.info(self.bank), a.info(exchange),
+            a.info(self.store_prog), a.info(self.token_prog), a.info(self.token22_prog),
+        ];
+        for i in mints.iter().chain(vaults.iter()).chain(targets.iter()) { accounts.push(a.info(*i)); }
+        let data = gmsol_treasury::instruction::CompleteGtExchange {}.data();
+        let snap = self.arena.snapshot();
+        let accounts: &'static [AccountInfo<'static>] = Box::leak(accounts.into_boxed_slice());
+        match gmsol_treasury::entry(&gmsol_treasury::ID, accounts, &data) {
+            Ok(()) => {
+                let mut rows = vec![];
+                for (i, t) in tokens.iter().enumerate() {
+                    let paid = token_amount(self.arena.mems[targets[i]].data());
+                    // a zero claim returns before the loop: nothing is paid and there are no rows
+                    if before[i] != 0 && g != 0 { rows.push((*t, before[i], paid)); }
+                    else { assert_eq!(paid, 0); }
+                    // the bank's token vault really lost what the bank recorded
+                    assert_eq!(token_amount(self.arena.mems[vaults[i]].data()), before[i] - paid);
+                }
+                // the exchange account was closed by the store program
+                assert_eq!(self.arena.mems[exchange].data_len(), 0);
+                Ok(rows)
+            }
+            Err(e) => { self.arena.restore(&snap); Err(match e { ProgramError::Custom(c) => c, _ => 1 }) }
+        }
+    }
+}
+
+fn bank_history_ix(rng: &mut Rng) {
+    let mut w = IxWorld::new();
+    let mut steps: Vec<String> = vec![];
+    let ntok = match rng.below(8) { 0 => 16, 1 => 1, _ => 1 + rng.below(5) };
+    for i in 0..ntok {
+        let t = 1 + ((i * 7) % 23);
+        let a = if rng.chance(1, 8) { 0 } else { amount(rng) };
+        let r = bh::record_transferred_in(w.bank_mut(), &tok(t), a);
+        steps.push(format!("SIn {t} {a} {}", rcode(&r)));
+    }
+    steps.push(snap(w.bank()));
+    let ncl = 1 + rng.below(6);
+    let mut claims: Vec<u64> = vec![];
+    let mut total: u64 = 0;
+    for _ in 0..ncl {
+        let g = match rng.below(8) { 0 => 0, 1 => 1, 2 => rng.below(1000), 3 => u64::MAX / 16, _ => rng.below(1_000_000_000_000) };
+        if let Some(t) = total.checked_add(g) { total = t; claims.push(g); }
+    }
+    let r = bh::confirm_unchecked(w.bank_mut(), total);
+    steps.push(format!("SConfirm {total} {}", rcode(&r)));
+    // the exchange vault's confirmed amount
+    { let v = w.vault; let d = w.arena.mems[v].data_mut(); d[8 + 24..8 + 32].copy_from_slice(&total.to_le_bytes()); }
+    if rng.chance(3, 4) {
+        let den: u128 = (rng.next128() >> rng.below(100)) | 1;
+        let num: u128 = match rng.below(4) { 0 => den, 1 => den / 2, _ => (den / 16 * (1 + rng.below(15) as u128)).min(den) };
+        let before = *w.bank();
+        let r = bh::reserve_balances(w.bank_mut(), &num, &den);
+        if r.is_err() { *w.bank_mut() = before; }
+        steps.push(format!("SReserve {} {} {}", z(num), z(den), rcode(&r)));
+    }
+    steps.push(snap(w.bank()));
+    let mut order: Vec<(u64, u64)> = claims.iter().enumerate().map(|(i, g)| (i as u64, *g)).collect();
+    for i in (1..order.len()).rev() { let j = rng.below(i as u64 + 1) as usize; order.swap(i, j); }
+    let internal = core_code(gmsol_store::CoreError::Internal);
+    let mut tag = "bank-ix/claims";
+    for (n, (who, g)) in order.iter().enumerate() {
+        if rng.chance(1, 6) {
+            let rem = bh::remaining_confirmed_gt_amount(w.bank());
+            if let Some(bad) = rem.checked_add(1 + rng.below(5)) {
+                let r = w.claim(50 + n as u64, bad);
+                let c = match &r { Ok(_) => 0, Err(c) if *c == internal => 6, Err(_) => 99 };
+                steps.push(format!("SClaim {bad} {c} [] {}", bh::remaining_confirmed_gt_amount(w.bank())));
+                tag = "bank-ix/claims-with-refusals";
+            }
+        }
+        match w.claim(*who, *g) {
+            Ok(rows) => {
+                let rs: Vec<String> = rows.iter().map(|(t, b, p)| format!("({t}, {b}, {p})")).collect();
+                steps.push(format!("SClaim {g} 0 [{}] {}", rs.join("; "), bh::remaining_confirmed_gt_amount(w.bank())));
+            }
+            Err(c) => { tag = "bank-ix/ERROR"; steps.push(format!("SClaim {g} {} [] {}", if c == internal { 6 } else { c }, bh::remaining_confirmed_gt_amount(w.bank()))); }
+        }
+        if rng.chance(1, 3) || n + 1 == order.len() { steps.push(snap(w.bank())); }
+    }
+    emit(tag, &format!("CBank [{}]", steps.join("; ")));
+}
+
 fn main() {
     let a = args();
     let mut rng = Rng::new(a.seed);
     g9rt::install();
+    g9rt::set_dispatcher(Some(ix_dispatcher()));
     for i in 0..a.n {
-        if i % 5 == 0 { config_history(&mut rng) } else { bank_history(&mut rng) }
+        match i % 5 { 0 => config_history(&mut rng), 1 | 2 => bank_history(&mut rng), _ => bank_history_ix(&mut rng) }
     }
 }
